@@ -462,18 +462,18 @@ func buildUniverse() *universe {
 		return len(m.regs) - 1
 	}
 	imm := func(h int) int {
-		m.exec(opRec{K: "immut", A: []int{h}, Flag: true})
+		m.exec(opRec{K: "immut", A: []int{h}, Flag: true, Name: "direct"})
 		return len(m.regs) - 1
 	}
 	u.i0, u.i1, u.sa, u.und = lit("i0", false), lit("i1", false), lit("sa", false), lit("u", false)
 	h1, h2, h3, h5 := lit("i1", true), lit("i2", true), lit("i3", true), lit("i5", true)
 	sv := lit("svalue", false)
-	u.i7 = sv // the value written by assignments: distinct from every element
-	a := arr(4, false, h1, h2, h3)                                     // 5: mutable [1,2,3] with spare capacity
-	ia := imm(arr(6, true, h1, h2, h3))                                // 6: immutable([1,2,3]) with spare capacity
+	u.i7 = sv                                                                   // the value written by assignments: distinct from every element
+	a := arr(4, false, h1, h2, h3)                                              // 5: mutable [1,2,3] with spare capacity
+	ia := imm(arr(6, true, h1, h2, h3))                                         // 6: immutable([1,2,3]) with spare capacity
 	ian := imm(arr(2, true, arr(2, true, h1, h2), mp(true, []string{"a"}, h1))) // 7: immutable([[1,2],{a:1}])
-	mm := mp(false, []string{"a", "b"}, h1, arr(1, true, h5))          // 8: {a:1, b:[5]}
-	im := imm(mp(true, []string{"a", "b"}, arr(1, true, h1), h2))      // 9: immutable({a:[1], b:2})
+	mm := mp(false, []string{"a", "b"}, h1, arr(1, true, h5))                   // 8: {a:1, b:[5]}
+	im := imm(mp(true, []string{"a", "b"}, arr(1, true, h1), h2))               // 9: immutable({a:[1], b:2})
 	t := arr(2, true, mp(true, []string{"a"}, arr(2, true, h1, h2)), arr(1, true, h3))
 	m.exec(opRec{K: "freeze", A: []int{t}})
 	m.private[t] = true
